@@ -140,6 +140,19 @@ pub fn eval(case: &J) -> Outcome {
             (Ok(_), Err(e)) => out.fail(&format!("C16/determ/fixpoint-not-executable/{}", if e.contains("duplicate WITH table name") { crate::s_dialect::duplicate_cte_class(&crate::exec::render(&r4)) } else { cls }), format!("{sql}: second-generation SQL fails: {e}")),
             _ => { out.tag("not-executable"); }
         }
+        // "… reproduces the same query semantics as the relation it came from": the relation came from `sql`, so the second-generation query
+        // must return what the source text returns (when SQLite can run the source text as it is)
+        if out.oracle.is_empty() {
+            if let (Ok(src), Ok(b)) = (db.query(&sql), db.run(&r4)) {
+                let ord = case["ordered"].as_bool().unwrap_or(false);
+                if rows_key(&src.1, ord) != rows_key(&b.1, ord) {
+                    // the recorded defects of the reader (C08) show up here as well, under their own names
+                    let cause = if sql.contains("log10(") || sql.contains("log2(") { "log-base-inverted".to_string() } else if sql.contains("tan(") { "division-by-null-is-zero".to_string() }
+                        else if crate::s_sqlx::duplicate_unnamed_items(&sql) { "duplicate-unnamed-items".to_string() } else if crate::s_sqlx::orders_by_missing_column(&r1) { "order-by-missing-column".to_string() } else { crate::s_sqlx::query_class(&sql) };
+                    out.fail(&format!("C16/determ/reparse-differs-from-source/{cause}"), format!("{sql}: the source returns {:?} but the query rendered, read back and rendered again returns {:?}", src.1.iter().take(5).collect::<Vec<_>>(), b.1.iter().take(5).collect::<Vec<_>>()));
+                } else { out.tag("source-same-rows"); }
+            }
+        }
     }
     out
 }
